@@ -66,8 +66,8 @@ Proof. exact (repetition_refuses_first gen_sizeof gen_base gen_item gen_linear g
 (* whole evaluation of `x * c`: if the product is computed at all it fits the quota *)
 Theorem C08_repetition_never_over_quota : forall Q k n sz c cs, 0 < Q -> 0 <= n -> gen_sizeof k n <= sz ->
   allocated (mul_eval (estimate gen_sizeof) gen_sizeof Q k n sz c cs) = true ->
-  mul_eval (estimate gen_sizeof) gen_sizeof Q k n sz c cs = MulOk (true_size gen_sizeof k n c) /\
-  true_size gen_sizeof k n c <= Q.
+  mul_eval (estimate gen_sizeof) gen_sizeof Q k n sz c cs = MulOk (product_size gen_sizeof k n sz c) /\
+  product_size gen_sizeof k n sz c <= Q.
 Proof. exact (repetition_never_over_quota gen_sizeof gen_base gen_item gen_linear gen_item_nonneg gen_base_empty_le). Qed.
 
 (* F6, the estimate before the repair (`[]` as the empty sample for a tuple): a tuple of two
